@@ -164,7 +164,10 @@ pub(crate) fn generate_pipeline(
     for stage in ordered_stages {
         let mut body = Vec::new();
         let function_name =
-            scoped_name_to_identifier(context.get_function_name_full(stage.entry_point).unwrap());
+            scoped_name_to_identifier(
+                context.get_function_name_full(stage.entry_point).unwrap(),
+                context,
+            );
 
         let mut entry_params = Vec::new();
         let mut out_params = Vec::new();
